@@ -11,6 +11,7 @@ import (
 	"errors"
 	"fmt"
 	"io"
+	"log"
 	"log/slog"
 	"net"
 	"net/http"
@@ -155,6 +156,25 @@ type FakeTarget struct {
 	Reqs   []*ReqRec
 }
 
+// handlerPanicLog receives what net/http's server logs about its connections. A panic in the
+// proxy's request path is recovered by net/http (the process survives, the client's connection is
+// dropped); the first line of each such report goes to stderr, where the driver counts it (a
+// violation for C18, "inconclusive" for the monitor of any other property).
+var handlerPanicLog = log.New(panicSink{}, "", 0)
+
+type panicSink struct{}
+
+func (panicSink) Write(b []byte) (int, error) {
+	if i := bytes.Index(b, []byte("http: panic serving")); i >= 0 {
+		line := b[i:]
+		if j := bytes.IndexByte(line, '\n'); j >= 0 {
+			line = line[:j]
+		}
+		fmt.Fprintf(os.Stderr, "VERIF-HANDLER-PANIC %s\n", line)
+	}
+	return len(b), nil
+}
+
 func OKProbe(n int, at time.Duration) ProbeAct { return ProbeAct{Status: 200} }
 
 // Req is one client request. Lat/Mode are transported to the default fake-target
@@ -288,7 +308,7 @@ func NewWorld(t *testing.T, opt WorldOpt) *World {
 	w.Srv = server.NewServer(cfg, w.Router)
 	if !opt.NoServer {
 		w.ln = newMemListener(80)
-		w.HS = &http.Server{Handler: server.VerifHandler(w.Srv)}
+		w.HS = &http.Server{Handler: server.VerifHandler(w.Srv), ErrorLog: handlerPanicLog}
 		go w.HS.Serve(w.ln)
 		if opt.TLSListener {
 			w.tlsLn = newMemListener(443)
@@ -790,7 +810,7 @@ func (w *World) NewProxy(dir string) *Proxy {
 	p.Router = server.NewRouter(cfg.StatePath())
 	p.Srv = server.NewServer(cfg, p.Router)
 	p.ln, p.tlsLn = newMemListener(80), newMemListener(443)
-	p.HS = &http.Server{Handler: server.VerifHandler(p.Srv)}
+	p.HS = &http.Server{Handler: server.VerifHandler(p.Srv), ErrorLog: handlerPanicLog}
 	go p.HS.Serve(p.ln)
 	go p.HS.Serve(tls.NewListener(p.tlsLn, &tls.Config{GetCertificate: p.Router.GetCertificate, NextProtos: []string{"http/1.1"}}))
 	w.mu.Lock()
